@@ -50,6 +50,12 @@ log = logging.getHttpLogger(__name__)
 class HttpRelayClient(RelayPoolClient):
 
     reply_code_pattern = re.compile(r'^\s*([1-5]\d\d)\s*;')
+
+    #: HTTP servers limit the number of header lines of a request (100 is
+    #: common). Up to this many recipient headers are sent, one recipient each;
+    #: for longer recipient lists several values share a header as a
+    #: comma-separated list, which means the same (RFC 7230 3.2.2).
+    max_recipient_headers = 50
     reply_param_pattern = re.compile(r'\s(\w+)\s*=\s*"(.*?)"')
 
     def __init__(self, relay):
@@ -94,9 +100,11 @@ class HttpRelayClient(RelayPoolClient):
                    (self.relay.ehlo_header, self.ehlo_as),
                    (self.relay.sender_header,
                     self._b64encode(envelope.sender))]
-        for rcpt in envelope.recipients:
+        rcpts = [self._b64encode(rcpt) for rcpt in envelope.recipients]
+        per_header = -(-len(rcpts) // self.max_recipient_headers) or 1
+        for i in range(0, len(rcpts), per_header):
             headers.append((self.relay.recipient_header,
-                            self._b64encode(rcpt)))
+                            ', '.join(rcpts[i:i+per_header])))
         return headers
 
     def _new_conn(self):
